@@ -31,6 +31,16 @@ pub enum Val {
     /// Encodes as an array of k zeros where k grows by one with every `encode` call (interior
     /// state, like the built-in Cell / atomic impls or a stateful `write_with` context).
     Counting(Rc<std::cell::Cell<u8>>),
+    /// An `Encode` impl that writes no bytes at all: a frame of length 0 (`00 00 00 00`), which must
+    /// be delivered like every other frame.
+    Nothing,
+}
+
+struct Nothing;
+impl<C> minicbor::Encode<C> for Nothing {
+    fn encode<W: minicbor::encode::Write>(&self, _: &mut minicbor::Encoder<W>, _: &mut C) -> Result<(), minicbor::encode::Error<W::Error>> {
+        Ok(())
+    }
 }
 
 struct Counting(Rc<std::cell::Cell<u8>>);
@@ -154,6 +164,7 @@ pub fn run_schedule_relimit(values: &[Val], ch: &Choices, b: Bounds, max_len: us
             Val::Data(d) => Some(minicbor::to_vec(d).unwrap()),
             Val::Refuses => None,
             Val::Counting(c) => Some(counting_payload(c.get())),
+            Val::Nothing => Some(Vec::new()),
         };
         if let Val::Counting(c) = v {
             let k0 = c.get();
@@ -176,6 +187,7 @@ pub fn run_schedule_relimit(values: &[Val], ch: &Choices, b: Bounds, max_len: us
                 Val::Data(d) => Box::pin(w.write(d.clone())),
                 Val::Refuses => Box::pin(w.write(Refuses)),
                 Val::Counting(c) => Box::pin(w.write(Counting(c.clone()))),
+                Val::Nothing => Box::pin(w.write(Nothing)),
             };
             let mut first = true;
             loop {
@@ -224,7 +236,7 @@ pub fn run_schedule_relimit(values: &[Val], ch: &Choices, b: Bounds, max_len: us
                         return Err("a value that failed to encode put bytes into the sink".into());
                     }
                 }
-                (Error::InvalidLen, Val::Data(_) | Val::Counting(_)) if !committed => {
+                (Error::InvalidLen, Val::Data(_) | Val::Counting(_) | Val::Nothing) if !committed => {
                     if w.writer().out.len() != before_sink {
                         return Err("an oversized value put bytes into the sink".into());
                     }
@@ -330,6 +342,7 @@ fn vals_repr(v: &[Val]) -> String {
             Val::Data(d) => format!("{}", d.iter().map(|n| n.to_string()).collect::<Vec<_>>().join(".")),
             Val::Refuses => "R".to_string(),
             Val::Counting(c) => format!("C{}", c.get()),
+            Val::Nothing => "N".to_string(),
         })
         .collect::<Vec<_>>()
         .join(";")
@@ -337,7 +350,7 @@ fn vals_repr(v: &[Val]) -> String {
 
 fn vals_parse(s: &str) -> Vec<Val> {
     s.split(';')
-        .map(|x| if x == "R" { Val::Refuses } else if let Some(k) = x.strip_prefix('C') { Val::Counting(Rc::new(std::cell::Cell::new(k.parse().unwrap_or(0)))) } else { Val::Data(x.split('.').filter(|t| !t.is_empty()).map(|t| t.parse().unwrap()).collect()) })
+        .map(|x| if x == "R" { Val::Refuses } else if x == "N" { Val::Nothing } else if let Some(k) = x.strip_prefix('C') { Val::Counting(Rc::new(std::cell::Cell::new(k.parse().unwrap_or(0)))) } else { Val::Data(x.split('.').filter(|t| !t.is_empty()).map(|t| t.parse().unwrap()).collect()) })
         .collect()
 }
 
@@ -409,7 +422,7 @@ pub fn explore(rep: &mut Report, values: &[Val], b: Bounds, max_len: usize, cap:
 }
 
 fn value_sets(three: bool) -> Vec<Vec<Val>> {
-    let singles = vec![Val::Data(vec![]), Val::Data(vec![5]), Val::Data(vec![300, 1]), Val::Refuses];
+    let singles = vec![Val::Data(vec![]), Val::Data(vec![5]), Val::Data(vec![300, 1]), Val::Refuses, Val::Nothing];
     let mut out = Vec::new();
     for a in &singles {
         out.push(vec![a.clone()]);
@@ -438,6 +451,8 @@ fn walk(rep: &mut Report, seed: u64, i: u64, states: &mut HashSet<(u8, usize, us
                 Val::Data((0..k).map(|_| { x = x.wrapping_mul(1664525).wrapping_add(1013904223); (x >> 16) as u16 }).collect())
             } else if rng.chance(1, 8) {
                 Val::Refuses
+            } else if rng.chance(1, 12) {
+                Val::Nothing
             } else if max_len >= 40 && rng.chance(1, 6) {
                 Val::Counting(Rc::new(std::cell::Cell::new(rng.below(18) as u8)))
             } else {
